@@ -117,12 +117,20 @@ func typeName(t byte) string {
 
 // readAll reads the byte stream through the real Framer and judges every step against the reference.
 func readAll(stream []byte, limit uint32) (v *vstat.Violation, classes []string) {
+	return readAllOpt(stream, limit, false)
+}
+
+func readAllOpt(stream []byte, limit uint32, reuse bool) (v *vstat.Violation, classes []string) {
 	defer func() {
 		if r := recover(); r != nil {
 			v = vstat.Violf("read|panic", "ReadFrame panicked: %v", r)
 		}
 	}()
 	f := h2.NewFramer(io.Discard, bytes.NewReader(stream))
+	if reuse {
+		f.SetReuseFrames()
+		classes = append(classes, "reused-frame-objects")
+	}
 	if limit > 0 {
 		f.SetMaxReadFrameSize(limit)
 	} else {
@@ -276,6 +284,7 @@ func codeNames(codes []uint32) []string {
 type ReadScript struct {
 	Stream []byte `json:"stream"`
 	Limit  uint32 `json:"limit"`
+	Reuse  bool   `json:"reuse,omitempty"` // SetReuseFrames: one DataFrame object is handed out again and again
 }
 
 var colRead = vstat.New("C19", "c19.read")
@@ -309,6 +318,7 @@ func genReadScript(t *rapid.T) ReadScript {
 		s.Stream = s.Stream[:rapid.IntRange(0, len(s.Stream)-1).Draw(t, "cut")]
 	}
 	s.Limit = rapid.SampledFrom([]uint32{0, 0, 16384, 16385, 20, 1 << 20}).Draw(t, "limit")
+	s.Reuse = rapid.IntRange(0, 2).Draw(t, "reuse") == 0
 	return s
 }
 
@@ -317,7 +327,7 @@ func TestRead(t *testing.T) {
 		"ok:DATA", "ok:HEADERS", "ok:PRIORITY", "ok:RST_STREAM", "ok:SETTINGS", "ok:PING", "ok:GOAWAY", "ok:WINDOW_UPDATE", "ok:CONTINUATION", "ok:PUSH_PROMISE", "ok:UNKNOWN")
 	vstat.Run(t, vstat.Spec[ReadScript]{Col: colRead, Quick: 60000, Thorough: 2000000, Gen: genReadScript,
 		Exec: func(s ReadScript) *vstat.Violation {
-			v, cl := readAll(s.Stream, s.Limit)
+			v, cl := readAllOpt(s.Stream, s.Limit, s.Reuse)
 			if v == nil {
 				nt := false
 				for _, c := range cl {
@@ -351,10 +361,14 @@ type WOp struct {
 	Inc        uint32      `json:"inc,omitempty"`
 	Promise    uint32      `json:"promise,omitempty"`
 	Cont       []int       `json:"cont,omitempty"` // header chain: sizes of the CONTINUATION fragments that follow
+	// Kind "rejected": a call with a parameter the framer refuses (AllowIllegalWrites is off). It must return an
+	// error, write nothing, and leave nothing behind that ends up in the next frame. Variant names the call.
+	Variant string `json:"variant,omitempty"`
 }
 
 type WriteScript struct {
-	Ops []WOp `json:"ops"`
+	Ops   []WOp `json:"ops"`
+	Reuse bool  `json:"reuse,omitempty"` // the reader hands out reused frame objects (SetReuseFrames)
 }
 
 var colWrite = vstat.New("C19", "c19.write")
@@ -491,6 +505,31 @@ func execWrite(s WriteScript) (v *vstat.Violation, classes []string) {
 		case "window_update":
 			err = w.WriteWindowUpdate(op.Stream, op.Inc)
 			exp = fr.WindowUpdate(op.Stream, op.Inc)
+		case "rejected":
+			switch op.Variant {
+			case "headers-dep-reserved-bit":
+				err = w.WriteHeaders(h2.HeadersFrameParam{StreamID: op.Stream | 1, BlockFragment: payload(op.N, i), EndHeaders: true, Priority: h2.PriorityParam{StreamDep: 0x80000000 | op.Dep, Weight: op.Weight}})
+			case "push-promise-id-zero":
+				err = w.WritePushPromise(h2.PushPromiseParam{StreamID: op.Stream | 1, PromiseID: 0, BlockFragment: payload(op.N, i), EndHeaders: true})
+			case "push-promise-id-high-bit":
+				err = w.WritePushPromise(h2.PushPromiseParam{StreamID: op.Stream | 1, PromiseID: 0x80000002, BlockFragment: payload(op.N, i), EndHeaders: true})
+			case "priority-dep-reserved-bit":
+				err = w.WritePriority(op.Stream|1, h2.PriorityParam{StreamDep: 0x80000000 | op.Dep, Weight: op.Weight})
+			case "data-stream-zero":
+				err = w.WriteData(0, false, payload(op.N, i))
+			case "window-update-zero":
+				err = w.WriteWindowUpdate(op.Stream, 0)
+			default:
+				err = w.WriteRSTStream(0, h2.ErrCodeCancel)
+			}
+			classes = append(classes, "rejected-call-followed-by-more-writes")
+			if err == nil {
+				return vstat.Violf("write|illegal-parameter-accepted:"+op.Variant, "op %d %+v: no error (AllowIllegalWrites is off)", i, op), classes
+			}
+			if buf.Len() != before {
+				return vstat.Violf("write|rejected-call-wrote-bytes:"+op.Variant, "op %d %+v: %d bytes written despite error %v", i, op, buf.Len()-before, err), classes
+			}
+			continue
 		case "push_promise":
 			frag := payload(op.N, i)
 			err = w.WritePushPromise(h2.PushPromiseParam{StreamID: op.Stream, PromiseID: op.Promise, BlockFragment: frag, EndHeaders: true, PadLength: uint8(op.Pad)})
@@ -509,7 +548,10 @@ func execWrite(s WriteScript) (v *vstat.Violation, classes []string) {
 		want = append(want, exp...)
 	}
 	// read everything back through the real reader and compare with the reference parse
-	if v, _ := readAll(buf.Bytes(), 1<<24-1); v != nil {
+	if s.Reuse {
+		classes = append(classes, "reused-frame-objects")
+	}
+	if v, _ := readAllOpt(buf.Bytes(), 1<<24-1, s.Reuse); v != nil {
 		v.Sig = "write|readback:" + v.Sig
 		return v, classes
 	}
@@ -529,6 +571,9 @@ func execWrite(s WriteScript) (v *vstat.Violation, classes []string) {
 	}
 	wantN := 0
 	for _, op := range s.Ops {
+		if op.Kind == "rejected" {
+			continue
+		}
 		wantN += 1 + len(op.Cont)
 	}
 	if n != wantN {
@@ -545,14 +590,20 @@ func trunc(b []byte) []byte {
 }
 
 func TestWrite(t *testing.T) {
-	colWrite.Mandatory("padded", "priority", "continuation")
+	colWrite.Mandatory("padded", "priority", "continuation", "rejected-call-followed-by-more-writes", "reused-frame-objects")
 	vstat.Run(t, vstat.Spec[WriteScript]{Col: colWrite, Quick: 20000, Thorough: 500000,
 		Gen: func(t *rapid.T) WriteScript {
 			var s WriteScript
 			n := rapid.IntRange(1, 8).Draw(t, "nops")
 			for i := 0; i < n; i++ {
+				if i < n-1 && rapid.IntRange(0, 7).Draw(t, "rejected") == 0 {
+					s.Ops = append(s.Ops, WOp{Kind: "rejected", Stream: uint32(rapid.IntRange(1, 1000).Draw(t, "rs")), N: rapid.IntRange(0, 30).Draw(t, "rn"), Dep: uint32(rapid.IntRange(0, 100).Draw(t, "rd")), Weight: byte(rapid.IntRange(0, 255).Draw(t, "rw")),
+						Variant: rapid.SampledFrom([]string{"headers-dep-reserved-bit", "push-promise-id-zero", "push-promise-id-high-bit", "priority-dep-reserved-bit", "data-stream-zero", "window-update-zero", "rst-stream-zero"}).Draw(t, "rv")})
+					continue
+				}
 				s.Ops = append(s.Ops, genWOp(t))
 			}
+			s.Reuse = rapid.Bool().Draw(t, "reuse")
 			return s
 		},
 		Exec: func(s WriteScript) *vstat.Violation {
